@@ -263,7 +263,9 @@ def native_replay(plan, r, scenario, repo):
         return None
     spec = plan.find_job(r["job"])
     payload = {"job": r["job"], "module": spec[0], "impl": r.get("impl"), "ref": r.get("ref"), "kind": r.get("kind"),
-               "scenario": scenario, "repo": repo}
+               "scenario": scenario, "repo": repo, "args": r.get("args")}
+    if not payload["args"] or "unsupported" in json.dumps(payload["args"]):
+        return {"confirmed": False, "error": "parameter shape of this job cannot be built natively"}
     p = subprocess.run(["/venv/bin/python", harness, "--scenario", "-"], input=json.dumps(payload, default=str), capture_output=True, text=True,
                        timeout=120, env={**os.environ, "PYTHONPATH": repo})
     if p.returncode not in (0, 1):
@@ -282,7 +284,7 @@ def replay(prop, path, repo):
         spec = plan.find_job(rec["job"])
         from . import runner as rn
         jr = rn.run_jobs([spec], mode="bounded", unroll=3, procs=1, repo=repo)[0]
-        r["ref"], r["kind"] = jr.get("ref"), jr.get("kind")
+        r["ref"], r["kind"], r["args"] = jr.get("ref"), jr.get("kind"), jr.get("args")
         nat = native_replay(plan, r, rec["scenario"], repo)
         print(json.dumps(nat, indent=1))
         if nat and nat.get("confirmed"):
